@@ -24,7 +24,7 @@ RULE = ("case = (simulator in {direct Levy process, 1-d chain, copula chain, 1-d
 ASSUMPTIONS = ["jump counts are scripted (Poisson.sample replaced), everything else is recorded, not replaced",
                "copulas: finite-variation margins; grids of at most 9 points per axis"]
 REQUIRED_COUNTERS = ["paths_checked", "fixed_date_paths", "jump_time_paths", "max_step_paths", "multi_date_paths",
-                     "finer_grid_direct_calls", "coupled_paths", "paths_without_jump", "coarse_component_checks", "nd_diffusion_running_sums_nonzero_matrix"]
+                     "finer_grid_direct_calls", "coupled_paths", "paths_without_jump", "coarse_component_checks", "nd_diffusion_running_sums_nonzero_matrix", "finer_grid_gaps_multiple_of_the_cap"]
 MIN_NONTRIVIAL = {"quick": 60, "thorough": 800}
 THOROUGH_ROUNDS = 20      # the thorough tier runs the generators this many times (different seeds)
 SHARD_TIMEOUT = {"quick": 900, "thorough": 7200}
@@ -40,9 +40,9 @@ def gen_cases(tier, seed):
         sim = SIMS[i % 5] if i % 7 else "direct"
         cases.append({"kind": "sim", "sim": sim, "mode": MODES[(i // 5) % 3], "dates": int(rng.choice([2, 2, 3, 5, 13])),
                       "counts": [int(c) for c in rng.choice([0, 0, 1, 1, 2, 3, 7], size=16)], "seed": int(rng.integers(2**31)),
-                      "eps_frac": float(rng.choice([0.07, 0.31, 0.5, 1.0, 2.0]))})
+                      "eps_frac": float(rng.choice([0.07, 0.31, 0.5, 1.0, 2.0, 0.1, 0.2, 0.05]))})
     for i in range(20 if tier == "quick" else 400):
-        cases.append({"kind": "finer", "seed": int(rng.integers(2**31)), "dim": int(i % 3), "coupled": bool(i % 2)})
+        cases.append({"kind": "finer", "seed": int(rng.integers(2**31)), "dim": int(i % 3), "coupled": bool(i % 2), "exact": bool(i % 4 >= 2)})
     return cases
 
 
@@ -98,6 +98,13 @@ def _finer(case, R):
     if len(np.unique(times)) < n:
         return
     eps = float(T * rng.choice([0.05, 0.2, 0.45, 0.9]))
+    if case.get("exact"):
+        # gaps that are whole multiples of the cap (up to rounding): round maturities, jump times on multiples of the cap or none
+        T, eps = [(1.0, 0.2), (0.7, 0.1), (1.0, 0.1), (3.0, 0.3), (1.2, 0.12), (2.0, 0.4), (1.0, 0.05)][int(rng.integers(7))]
+        k = int(round(T / eps))
+        n = int(rng.integers(0, 3))
+        times = np.array(sorted(float(j * eps) for j in rng.choice(np.arange(1, k), size=n, replace=False))) if n else np.zeros(0)
+        R.hit("finer_grid_gaps_multiple_of_the_cap")
     d = case["dim"]
     shape = (n,) if d == 0 else (d + 1, n)
     vals = np.cumsum(rng.normal(size=shape), axis=-1)
@@ -115,7 +122,7 @@ def _finer(case, R):
         outs = [(vals, a)]
         name = "levyprocess"
     t2 = np.asarray(t2, dtype=float)
-    dts = np.diff(np.concatenate([[0.0], t2]))
+    dts = np.diff(np.concatenate([[0.0], t2, [T]]))          # (the step up to the maturity included)
     if np.any(dts > eps * (1 + 1e-9)) or np.any(dts <= 0):
         R.violation(f"finer-grid-{name}-steps", f"build_finer_grid: steps {dts.tolist()} for eps = {eps}", wit)
         return
@@ -176,7 +183,7 @@ def _sim(case, R):
     rng = np.random.default_rng(case["seed"])
     np.random.seed(case["seed"] % (2**31))
     sim, mode, dates = case["sim"], case["mode"], case["dates"]
-    T = float(rng.uniform(0.3, 2.5))
+    T = float(rng.uniform(0.3, 2.5)) if rng.random() < 0.6 else float(rng.choice([1.0, 2.0, 0.7, 3.0, 1.2]))     # (round maturities: the cap divides them)
     eps = case["eps_frac"] * T if mode == "maxstep" else None
     spec = _model_for(sim, rng)
     wit = {"case": case, "model": spec, "T": T, "eps": eps}
